@@ -43,6 +43,57 @@ def run_join(a_pub, b_pub, order):
     return [t for t in c.get_next_tasks() if t["id"] == "j"][0]["ctx"]["x"]
 
 
+UPSTREAM_DEF = """
+version: 1.0
+vars:
+  - x: 0
+tasks:
+  init:
+    action: core.noop
+    next:
+      - do: a1, b1
+  a1:
+    action: core.noop
+    next:
+      - publish: x=1
+        do: a2
+  a2:
+    action: core.noop
+    next:
+      - do: j
+  b1:
+    action: core.noop
+    next:
+      - publish: x=2
+        do: b2
+  b2:
+    action: core.noop
+    next:
+      - do: j
+  j:
+    join: all
+    action: core.echo message=<% ctx(x) %>
+"""
+
+
+def run_upstream(publish_order, arrival_order):
+    """Both branches publish x upstream of the join (on a1->a2, b1->b2): the order in which the values are
+    published (completion order of a1, b1) is independent of the order in which a2, b2 arrive at the join."""
+    spec = native_specs.WorkflowSpec(UPSTREAM_DEF)
+    assert not spec.inspect()
+    c = conducting.WorkflowConductor(spec)
+    c.request_workflow_status(st.RUNNING)
+    ev = lambda t, s: c.update_task_state(t, 0, events.ActionExecutionEvent(s))
+    c.get_next_tasks(); ev("init", st.RUNNING); ev("init", st.SUCCEEDED)
+    c.get_next_tasks(); ev("a1", st.RUNNING); ev("b1", st.RUNNING)
+    for t in publish_order:
+        ev(t, st.SUCCEEDED)
+    c.get_next_tasks(); ev("a2", st.RUNNING); ev("b2", st.RUNNING)
+    for t in arrival_order:
+        ev(t, st.SUCCEEDED)
+    return [t for t in c.get_next_tasks() if t["id"] == "j"][0]["ctx"]["x"]
+
+
 class JoinContextHistories(Unit):
     bounded = True
     name = "H.join_context_histories"
@@ -51,7 +102,7 @@ class JoinContextHistories(Unit):
         "C06.hist.join_arrival_order": {"props": ["C06"], "text":
             "at a join of two branches that both publish x independently, the later arrival's value is seen; a branch that merely inherited an older x never overrides a newer x published on the other branch"},
     }
-    assumptions = ["BOUNDED: four concrete histories on one definition (native run through the public API)"]
+    assumptions = ["BOUNDED: eight concrete histories on two definitions - publishes on the transitions into the join, and publishes upstream of it with every combination of publish order and arrival order (native run through the public API)"]
     trusted = ["CPython", "yaql"]
 
     def run_split(self, ctx, split):
@@ -62,9 +113,16 @@ class JoinContextHistories(Unit):
                 got = run_join(a_pub, b_pub, order)
                 ctx.oblige("C06.hist.join_arrival_order", got == want, {"history": hist},
                            {"history": hist, "a_publishes": a_pub, "b_publishes": b_pub, "order": order, "join_sees_x": got, "expected": want})
+            for pub in (("a1", "b1"), ("b1", "a1")):
+                for arr in (("a2", "b2"), ("b2", "a2")):
+                    got = run_upstream(pub, arr)
+                    want = 1 if arr[-1] == "a2" else 2
+                    hist = "upstream publishes in order %s, arrivals in order %s" % (pub, arr)
+                    ctx.oblige("C06.hist.join_arrival_order", got == want, {"history": hist},
+                               {"history": hist, "join_sees_x": got, "expected": want})
             ctx.canary()
         ctx.eng.explore(thunk)
-        ctx.bounded.append({"unit": self.name, "bound": "4 histories"})
+        ctx.bounded.append({"unit": self.name, "bound": "8 histories"})
 
 
 BARRIER_DEFS = {
